@@ -7,5 +7,4 @@ def run(ctx):
                         "for strings that are not valid UTF-8 only 'no panic' is checked", "the snake/camel round trip is checked on [a-z][a-z0-9]*(_[a-z][a-z0-9]*)* only"]
 
 def replay(ctx, rp):
-    vlib.log("replay: the file holds the concrete input; re-run ./check C17")
-    return 2
+    return vlib.replay_any(ctx, rp)
